@@ -266,7 +266,7 @@ def _call(g, a, b, Cs, form="list", ctor="from_edges", kw=False, seed=0):
     try:
         j = _ads(graph, a, b, Cs, form, kw)
         return ["ok", _judgement(j)], j
-    except (KeyError, TypeError, nx.NetworkXError, nx.NodeNotFound) as e:
+    except Exception as e:  # noqa: BLE001 - whatever the class: an error outcome of the real code, never a harness error
         return ["err"], type(e).__name__
 
 
